@@ -14,11 +14,15 @@ DEFAULTS = [
     ({"enum": ["on", "off"]}, "off"), ("REF-ENUM", "q"), ("REF-STR", "xyz"),
     # literals whose rendering depends on the Go type of the field: fractional defaults on untyped / multi-typed / enum-typed fields
     ({}, 2.5), ({"type": ["number", "string"]}, 0.75), ({"type": "number", "enum": [0.25, 0.5, 0.75]}, 0.5), ({"type": "integer", "enum": [1, 2, 3]}, 2),
+    # line endings and control characters (a raw string literal cannot hold a carriage return)
+    ({"type": "string"}, "HTTP/1.1 200 OK\r\nContent-Type: text/plain\r\n\r\n"), ({"type": "string"}, "cr\ronly"), ({"type": "string"}, "multi\nline\n"), ({}, "free\r\ntext"),
+    ({"type": "array", "items": {"type": "string"}}, [",", "\r\n", "\n", "\t\u0000\u007f"]), ({"type": "string"}, "nul\u0000bell\u0007 \u2028 \ufeff"),
     ({}, True), ({}, -3.5), ({"type": "string"}, "50%off \"q\" back\\slash `t` %d"), ({"type": "array", "items": {"type": "string"}}, ["100%", "a\nb"]),        # (a default on a nullable primitive does not compile: finding C01-default-on-nullable)
 ]
 # the property carrying the default: names containing Go type words (the generated type / field names contain them too)
 KEYS = ["d", "checkpoint", "substring", "afloat", "mapped", "hint"]
-OTHER = {"50%off \"q\" back\\slash `t` %d": "plain", 1.25: 2.25, 4: 5, "maybe": "surely", -3.5: 3.5, 2: 3, 0.5: 1.5, -0.25: 2.5, 0.75: 0.25, -1: 3, "hello": "other", "abc": "zz", 7: 8, 5: 6, 2.5: 3.5, 1.5: 2.0, True: False, "free": "bound", 12: 13, "green": "blue", "off": "on", "q": "p", "xyz": "abcd"}
+OTHER = {"HTTP/1.1 200 OK\r\nContent-Type: text/plain\r\n\r\n": "HTTP/1.1 200 OK\nContent-Type: text/plain\n\n", "cr\ronly": "cronly", "multi\nline\n": "multi\r\nline\r\n", "free\r\ntext": "free\ntext",
+         "nul\u0000bell\u0007 \u2028 \ufeff": "nulbell", "50%off \"q\" back\\slash `t` %d": "plain", 1.25: 2.25, 4: 5, "maybe": "surely", -3.5: 3.5, 2: 3, 0.5: 1.5, -0.25: 2.5, 0.75: 0.25, -1: 3, "hello": "other", "abc": "zz", 7: 8, 5: 6, 2.5: 3.5, 1.5: 2.0, True: False, "free": "bound", 12: 13, "green": "blue", "off": "on", "q": "p", "xyz": "abcd"}
 
 
 def systematic():
